@@ -59,8 +59,9 @@ func cmdRun(args []string) int {
 	workers := fs.Int("j", 1, "workers")
 	unwind := fs.Int("unwind", 200, "unwind bound")
 	budget := fs.Int("budget", 120, "wall-clock budget in seconds")
-	var params multiFlag
+	var params, gopol multiFlag
 	fs.Var(&params, "p", "param name=value")
+	fs.Var(&gopol, "go", "go-statement policy: function=skip|inline")
 	fs.Parse(args)
 	if fs.NArg() < 2 {
 		usage()
@@ -77,6 +78,10 @@ func cmdRun(args []string) int {
 		kv := strings.SplitN(p, "=", 2)
 		n, _ := strconv.Atoi(kv[1])
 		spec.Quick[kv[0]] = n
+	}
+	for _, p := range gopol {
+		kv := strings.SplitN(p, "=", 2)
+		spec.GoPolicy[kv[0]] = kv[1]
 	}
 	res, err := runHarness(l, spec, "quick", loadKnown(), *workers, *trace)
 	if err != nil {
